@@ -455,14 +455,17 @@ class Model:
         special = {
             "integer": [2**31, -2**31 - 1, 2**32, 2**32 + 5, 2**63, 2**64 - 1, -2**63],
             "safelong": [2**53, -(2**53), 2**63 - 1, 2**63, 2**64 - 1, 2**64 - 5, -2**63],
-            "uuid": ["not-a-uuid", "01234567-89ab-cdef-fedc-ba987654321", "g1234567-89ab-cdef-fedc-ba9876543210"],
-            "rid": ["ri.bad", "ri.A.b.c.d", "ri.a.b.c.", "x.a.b.c.d"],
-            "datetime": ["2020-13-01T00:00:00Z", "2020-01-01", "yesterday"],
-            "bearertoken": ["bad token", "", "tokén"],
+            "uuid": ["not-a-uuid", "01234567-89ab-cdef-fedc-ba987654321", "g1234567-89ab-cdef-fedc-ba9876543210", "01234567-89ab-cdef-fedc-ba98765432100", "01234567-89ab-cdef-fedc_ba9876543210", " 01234567-89ab-cdef-fedc-ba9876543210", ""],
+            "rid": ["ri.bad", "ri.A.b.c.d", "ri.a.b.c.", "x.a.b.c.d", "ri.service.instance.9type.locator", "ri.9service.instance.type.locator", "ri.service.-instance.type.locator", "ri.service.instance.Type.locator",
+                    "ri.ser_vice.instance.type.locator", "ri.service.instance..locator", "ri..instance.type.locator", "ri.service.instance.type.loc/ator", "ri.service.instance.type.locator\n", " ri.service.instance.type.locator", "ri.s.0.0.L",
+                    "RI.service.instance.type.locator"],
+            "uuid_extra": [],
+            "datetime": ["2020-13-01T00:00:00Z", "2020-01-01", "yesterday", "2020-02-30T00:00:00Z", "2020-01-01T25:00:00Z", "2020-01-01T00:00:00", "", "1577836800"],
+            "bearertoken": ["bad token", "", "tokén", "=", "a=b", "tok\n", " tok", "to,k", "==a"],
             "binary": ["%%%", "A", "AAE", "AA=E"],
             "double": ["nan", "inf", "1.5x"],
             "boolean": ["true", 1],
-            "enum": ["lower", "", "WITH SPACE", "WITH-DASH"],
+            "enum": ["lower", "", "WITH SPACE", "WITH-DASH", "One", "ONE ", " ONE", "ONE\n", "É"],
         }
         for bad in special.get(k, []):
             if not self.valid(t, bad):
